@@ -600,6 +600,35 @@ def corrupted_variants(two_bit=False):
     return out
 
 
+def grammar_variants():
+    """message type x option chain x payload, composed by the harness's writer (the alphabet members fix one chain per type): every
+    option type 1..7 (2 is not in the table) with value lengths 0/1/2/4 and value octets 00/01/02/FF - alone, after a DeviceID, and
+    before a ChannelID - on every type octet the dispatch distinguishes, with every payload class.  The handler logs (repr) what it
+    rejects and what it does not handle, so the rarely taken branches meet every chain."""
+    chains = []
+    for t in range(1, 8):
+        for ln in (0, 1, 2, 4):
+            for fill in (0x00, 0x01, 0x02, 0xFF):
+                if ln == 0 and fill:
+                    continue
+                one = bytes([ln]) + bytes([fill]) * ln
+                chains.append(("t%d_l%d_%02x" % (t, ln, fill), bytes([t]) + one))
+                chains.append(("dev+t%d_l%d_%02x" % (t, ln, fill), bytes.fromhex("83040001869f") + bytes([t]) + one))
+                chains.append(("t%d_l%d_%02x+chan" % (t, ln, fill), bytes([0x80 | t]) + one + bytes.fromhex("040102")))
+    payloads = {"none": b"", "reg": rrs(0x03, IP_A), "off": rrs(0x01, IP_A), "status": rrs(0x02, IP_A), "rcp": RCP_CALL, "tmp_badtext": TMP_BADTEXT}
+    types = {"data": 0x00, "reject": T_REJECT, "connect": T_CONNECT, "close": T_CLOSE, "heartbeat": T_HB, "ack": T_ACK, "reject_ack": T_REJECT | T_ACK}
+    out = []
+    n = 0
+    for tname, tb in types.items():
+        for pname, pl in payloads.items():
+            if pl and tname in ("connect", "close", "heartbeat"):
+                continue
+            for cname, ch in chains:
+                n += 1
+                out.append(("%s/%s" % (tname, pname), "grammar:" + cname, n, hstrp(tb | T_OPT, 0x0101 + (n & 0xFF), ch, pl)))
+    return out
+
+
 def w_malformed(task):
     pre_name, lo, hi = task
     acc = Acc()
@@ -701,9 +730,10 @@ def run(only=None):
         s.done()
         rep.bounds["closed_two_handlers"] = {"depth_completed": res.depth_completed, "states": res.states, "fixpoint": res.exhausted}
     if not only or "malformed_depth1" in only:
-        s = rep.sub("malformed_depth1", rule="every prefix truncation and every single-bit flip (thorough: and every two-bit flip) of every well-formed alphabet datagram, delivered in 4 reachable states; "
+        s = rep.sub("malformed_depth1", rule="every prefix truncation and every single-bit flip (thorough: and every two-bit flip) of every well-formed alphabet datagram, and every (type octet x payload class x option chain) "
+                                             "composition of the harness's writer (7 x 6 x 3 placements of every option type 1..7 with lengths 0/1/2/4 and fills 00/01/02/FF), delivered in 4 reachable states; "
                                              "non-trivial: every variant (distinct bytes)")
-        VARIANTS[:] = corrupted_variants(two_bit=thorough)
+        VARIANTS[:] = corrupted_variants(two_bit=thorough) + grammar_variants()
         tasks = [(pre, lo, hi) for pre in PRE_STATES for lo, hi in par.chunks(len(VARIANTS), 64 if thorough else 16)]
         s.declared = len(VARIANTS) * len(PRE_STATES)
         for acc in par.pmap(w_malformed, tasks):
